@@ -29,6 +29,19 @@ CdfOK(xs, cum, db, I) == /\ xs = SortedX(db, I) /\ Len(cum) = Len(xs)
 QuantilesOK(q, db) == /\ \A r \in 1..Len(q)-1 : Le(q[r], q[r+1])
                       /\ \A r \in 1..Len(q) : Le(R(MinX(db, 1..Len(db))), q[r]) /\ Le(q[r], R(MaxX(db, 1..Len(db))))
 
+\* ---- x2_max: which entries may NOT be left out -------------------------------------------------------
+\* chi-square of entry yi for observation y and inverse covariance Sinv (rational, symmetric)
+Chi2(y, yi, Sinv) == SumSeq([a \in 1..Len(y) |-> SumSeq([b \in 1..Len(y) |->
+                         Mul(Mul(R(y[a] - yi[a]), Sinv[a][b]), R(y[b] - yi[b]))], Len(y))], Len(y))
+MustKeep(db, y, x2, Sinv) == {i \in 1..Len(db) : Le(Chi2(y, db[i][1], Sinv), x2)}
+\* inverse covariances of the catalogue the harness uses (index = position in the catalogue)
+Sinvs(m) == IF m = 1 THEN <<<<<<R(1)>>>>, <<<<Frac(1, 4)>>>>>>
+            ELSE << <<<<R(1), R(0)>>, <<R(0), R(1)>>>>,
+                    <<<<R(1), R(0)>>, <<R(0), Frac(1, 4)>>>>,
+                    <<<<Frac(2, 3), Frac(-1, 3)>>, <<Frac(-1, 3), Frac(2, 3)>>>>,          \* inverse of [[2,1],[1,2]]
+                    <<<<Frac(1, 3), Frac(-1, 3)>>, <<Frac(-1, 3), Frac(5, 6)>>>> >>         \* inverse of [[5,2],[2,2]]
+X2s == <<Frac(1, 2), R(2), R(5)>>
+
 CONSTANTS MChan, MaxN, NSample
 Ys == IF MChan = 1 THEN {<<a>> : a \in 0..2} ELSE {<<a, b>> : a \in 0..2, b \in 0..1}
 DBs == UNION {[1..n -> Ys \X (0..3)] : n \in 1..MaxN}
@@ -44,5 +57,6 @@ Row(regime) == LET I == Sel(db, yobs, regime) IN
     ELSE [empty |-> FALSE, mean |-> Mean(db, I), var |-> Var(db, I), xs |-> SortedX(db, I), cum |-> Cdf(db, I),
           \* the property bounds the quantiles by the x range of the WHOLE database
           lo |-> MinX(db, 1..Len(db)), hi |-> MaxX(db, 1..Len(db))]
-Emit == PrintT(<<"CASE", ToJson([db |-> db, y |-> yobs, spike |-> Row("spike"), flat |-> Row("flat")])>>)
+Emit == PrintT(<<"CASE", ToJson([db |-> db, y |-> yobs, spike |-> Row("spike"), flat |-> Row("flat"),
+          must |-> [d \in 1..Len(Sinvs(MChan)) |-> [q \in 1..3 |-> MustKeep(db, yobs, X2s[q], Sinvs(MChan)[d])]]])>>)
 =============================================================================
